@@ -212,6 +212,8 @@ def to_dict(desc, order=None):
         else:
             txt = ref_text(desc, node, None, full=True)
         items.append(("'[%s]'!%s" % (bk, name.upper()), '=' + txt))
+    # explicit blank cells (dictionary form only: a file holds no such cell)
+    items += sorted((desc.get('extra_dict') or {}).items())
     if order is not None:
         items = order(items)
     return dict(items)
